@@ -9,7 +9,7 @@ import (
 )
 
 func checkC20(p *Program, r *Report) {
-	r.Explanation = "Decided for every input and every stream layout (no input is looked at): (load) no write effect reachable from (*SlimTrie).Unmarshal targets the backing array of its argument, and at the points-to fixpoint that array is not reachable from the receiver or from any package-level variable (not retained); (marshal) the slice returned by Marshal points only to memory allocated during the call and is not stored in the receiver; (build) no write effect reachable from NewSlimTrie targets the caller's key slice, value slice, option struct or the bools it points to. Whole-program inclusion-based points-to analysis with summaries for std/protobuf."
+	r.Explanation = "Decided for every input and every stream layout (no input is looked at): (load) no write effect reachable from (*SlimTrie).Unmarshal targets the backing array of its argument, and at the points-to fixpoint that array is not reachable from the receiver or from any package-level variable (not retained); (marshal) the slice returned by Marshal points only to memory allocated during the call and is not stored in the receiver; (build) no write effect reachable from NewSlimTrie targets the caller's key slice, value slice, option struct or the bools it points to. Whole-program inclusion-based points-to analysis with summaries for std/protobuf. (build retention) no object the caller can still write — key slice, value slice and what the values point to, option struct and flags — is in the contents closure of the trie NewSlimTrie returns; Encoder implementations of the analysed packages are followed, so an identity encoder carries the caller's value memory into whatever keeps encoded bytes without copying."
 	r.NotCovered = "Aliasing inside protobuf's decoder is trusted (summary justified by reading table_unmarshal.go: byte fields are copied). Retention of immutable key string data by the builder is not a violation and is not checked."
 	r.Trusted = []string{"go/packages, go/types, go/ssa (x/tools v0.29.0)", "external summary table e1_summ.go"}
 	r.Assumptions = []string{"user-supplied Encoder implementations do not write their inputs", "golang/protobuf 1.3.1 Unmarshal copies []byte fields out of its input"}
